@@ -224,6 +224,10 @@ type kindStat struct{ n, lost, changed, extra int }
 
 func (f *genFam) Apply(st M) M {
 	r := rand.New(rand.NewSource(geti(st, "seed")))
+	mintSet := int(geti(st, "seed") % 1000003)
+	if mintSet < 0 {
+		mintSet = -mintSet
+	}
 	f.log = nil
 	par := func(gs app.GenesisState, a *app.JackalApp) {
 		var sg stypes.GenesisState
@@ -245,13 +249,28 @@ func (f *genFam) Apply(st M) M {
 		gs["rns"] = a.AppCodec().MustMarshalJSON(&rg)
 		var mg mtypes.GenesisState
 		a.AppCodec().MustUnmarshalJSON(gs["jklmint"], &mg)
-		mg.Params.TokensPerBlock = 1_234_567
-		mg.Params.MintDecrease = 7
-		mg.Params.StakerRatio, mg.Params.DevGrantsRatio, mg.Params.StorageProviderRatio = 70, 10, 15
+		// governance-set values, some of them zero in every other round trip (zero is a legal value, not "unset")
+		sets := [][5]int64{{1_234_567, 7, 70, 10, 15}, {1_234_567, 0, 70, 10, 15}, {42, 7, 100, 0, 0}, {1_234_567, 7, 88, 0, 12}, {0, 0, 0, 50, 50}, {1_234_567, 7, 70, 10, 0}}
+		ps := sets[mintSet%len(sets)]
+		mg.Params.TokensPerBlock, mg.Params.MintDecrease = ps[0], ps[1]
+		mg.Params.StakerRatio, mg.Params.DevGrantsRatio, mg.Params.StorageProviderRatio = ps[2], ps[3], ps[4]
 		gs["jklmint"] = a.AppCodec().MustMarshalJSON(&mg)
 	}
 	f.c = chain.New(par2)
 	f.c.Step = 24 * 3600 * 1e9
+	{ // the same values again through the keeper, as a parameter-change proposal would set them on the running chain
+		// (an InitGenesis that rewrites values on import must not be able to hide behind having rewritten the first chain's too)
+		sets := [][5]int64{{1_234_567, 7, 70, 10, 15}, {1_234_567, 0, 70, 10, 15}, {42, 7, 100, 0, 0}, {1_234_567, 7, 88, 0, 12}, {0, 0, 0, 50, 50}, {1_234_567, 7, 70, 10, 0}}
+		ps := sets[mintSet%len(sets)]
+		mp := f.c.App.MintKeeper.GetParams(f.c.Ctx)
+		mp.TokensPerBlock, mp.MintDecrease, mp.StakerRatio, mp.DevGrantsRatio, mp.StorageProviderRatio = ps[0], ps[1], ps[2], ps[3], ps[4]
+		f.c.App.MintKeeper.SetParams(f.c.Ctx, mp)
+		if mintSet%2 == 1 { // storage shares at zero, set on the running chain
+			sp := f.c.App.StorageKeeper.GetParams(f.c.Ctx)
+			sp.ReferralCommission, sp.PolRatio = 0, 0
+			f.c.App.StorageKeeper.SetParams(f.c.Ctx, sp)
+		}
+	}
 	f.populate(r)
 	c1 := f.c
 	ctx := c1.Ctx
